@@ -34,7 +34,8 @@ def _value(sol, n, i):
     v = sp.simplify(v)
     if v.is_Rational:
         return f"{v.p}/{v.q}"
-    v = sp.nsimplify(v)
+    import exppoly
+    v = exppoly.exact(v)
     if v.is_Rational:
         return f"{v.p}/{v.q}"
     if v.free_symbols:
